@@ -170,8 +170,11 @@ impl<T: TrustProvider> TrustAwarePeerSelector<T> {
             return vec![];
         }
 
-        // Score each candidate, filtering NaN during collection for efficiency
-        let mut scored: Vec<(NodeInfo, f64)> = candidates
+        // Score each candidate, filtering NaN during collection for efficiency.
+        // The exact XOR distance is kept next to the score: the f64 score cannot resolve
+        // distances that agree in their leading ~50 bits and is 0 for every peer when the
+        // trust factor is 0, so equal scores are ordered by distance (closer first).
+        let mut scored: Vec<(NodeInfo, f64, [u8; 32])> = candidates
             .iter()
             .filter_map(|node| {
                 let trust = self.get_trust_for_node(&node.id);
@@ -186,18 +189,19 @@ impl<T: TrustProvider> TrustAwarePeerSelector<T> {
                 if score.is_nan() {
                     return None;
                 }
-                Some((node.clone(), score))
+                let distance = key.distance(&DhtKey::from_bytes(*node.id.as_bytes()));
+                Some((node.clone(), score, distance))
             })
             .collect();
 
-        // Sort by score descending (higher is better)
-        scored.sort_by(|a, b| b.1.total_cmp(&a.1));
+        // Sort by score descending (higher is better); ties by exact XOR distance ascending
+        scored.sort_by(|a, b| b.1.total_cmp(&a.1).then_with(|| a.2.cmp(&b.2)));
 
         // Take top `count` peers
         scored
             .into_iter()
             .take(count)
-            .map(|(node, _)| node)
+            .map(|(node, _, _)| node)
             .collect()
     }
 
